@@ -8,8 +8,9 @@ namespace Props.C09
 open Model.StateDB
 
 /-- side condition of `Suicide` (see `revert_suicide_negative_counterexample`): `suicideChange` remembers only strictly positive
-balances, so exact restoration needs non-negative balances; and the token map must not have been deep-copied (still private),
-because the revert installs a private map again -/
+balances, so exact restoration needs non-negative balances; and the token map must be private (not a cell shared with a copy),
+because the revert installs a private map again.  On the current tree (deepCopy clones the map) no map is ever shared, and
+the second half is discharged by the invariant `NS`: see `SafeOpNN`, `safe_of_nn`, `revert_exact_ns` in Props/C09World.lean -/
 def SafeOp (c : Ctx) : Op → Prop
   | .suicide a => ∀ o, peek c.st a = some o → 0 ≤ o.balance ∧ ∃ m, o.toks = .inl m ∧ ∀ t v, m t = some v → 0 ≤ v
   | _ => True
